@@ -46,6 +46,7 @@ void thrift_decoder_init(thrift_decoder_t* dec, const uint8_t* data, size_t size
     memset(dec, 0, sizeof(*dec));
     carquet_buffer_reader_init_data(&dec->reader, data, size);
     dec->nesting_level = 0;
+    dec->skip_depth = 0;
     dec->bool_pending = false;
     dec->status = CARQUET_OK;
 }
@@ -55,6 +56,7 @@ void thrift_decoder_init_reader(thrift_decoder_t* dec,
     memset(dec, 0, sizeof(*dec));
     dec->reader = *reader;
     dec->nesting_level = 0;
+    dec->skip_depth = 0;
     dec->bool_pending = false;
     dec->status = CARQUET_OK;
 }
@@ -418,23 +420,37 @@ void thrift_skip(thrift_decoder_t* dec, thrift_type_t type) {
 
         case THRIFT_TYPE_LIST:
         case THRIFT_TYPE_SET: {
+            /* Containers of containers recurse once per level: bound the depth
+             * like struct nesting, or one byte per level overflows the stack */
+            if (dec->skip_depth >= THRIFT_MAX_NESTING) {
+                set_error(dec, CARQUET_ERROR_THRIFT_DECODE, "Container nesting too deep");
+                break;
+            }
             thrift_type_t elem_type;
             int32_t count;
             thrift_read_list_begin(dec, &elem_type, &count);
+            dec->skip_depth++;
             for (int32_t i = 0; i < count && dec->status == CARQUET_OK; i++) {
                 skip_element(dec, elem_type);
             }
+            dec->skip_depth--;
             break;
         }
 
         case THRIFT_TYPE_MAP: {
+            if (dec->skip_depth >= THRIFT_MAX_NESTING) {
+                set_error(dec, CARQUET_ERROR_THRIFT_DECODE, "Container nesting too deep");
+                break;
+            }
             thrift_type_t key_type, value_type;
             int32_t count;
             thrift_read_map_begin(dec, &key_type, &value_type, &count);
+            dec->skip_depth++;
             for (int32_t i = 0; i < count && dec->status == CARQUET_OK; i++) {
                 skip_element(dec, key_type);
                 skip_element(dec, value_type);
             }
+            dec->skip_depth--;
             break;
         }
 
